@@ -54,10 +54,14 @@ def look (s : St) (r : Res × List Cleanup) : St × String :=
 
 def step (s : St) : List String → St × String
   | ["reset"] => (init, "ok")
-  | "sync" :: full :: np :: nd :: rest =>
+  | "sync" :: full :: t :: np :: nd :: rest =>
+    -- a successful Refresh: answers with the sync time the storage was asked for
     let ps := parseProfiles (nat! np) rest
     let ds := parseDevices (nat! nd) ps.2
-    (applySync s (bool! full) ps.1 ds, "ok")
+    (applySync s (bool! full) (nat! t) ps.1 ds, s!"ok {reqTime s (bool! full)}")
+  | ["fail", full] =>
+    -- a Refresh whose storage request failed
+    (stepEv s (.failed (bool! full)), s!"ok {reqTime s (bool! full)}")
   | ["dev", id] => look s (findByDev s (nat! id))
   | ["link", ip] => look s (lookupKey s (.linked (nat! ip)))
   | ["ded", ip] => look s (lookupKey s (.ded (nat! ip)))
@@ -66,7 +70,7 @@ def step (s : St) : List String → St × String
   | ["run", i] => (Agd.ProfileDB.step s (.run (nat! i)), "ok")
   | ["snap", nd, nip, nh, np] => (s, snap s (nat! nd) (nat! nip) (nat! nh) (nat! np))
   | ["restart", v] =>
-    (loadCache (nat! v) s.cache, "ok")
+    (Agd.ProfileDB.step s (.restart (nat! v)), "ok")
   | ["rtauth", aen, adoh, apw] =>
     let a : Agd.ProfileCache.Auth := Agd.ProfileCache.Auth.mk (bool! aen) (bool! adoh)
       (if apw == "0" then .allow else .bcrypt (nat! apw))
